@@ -485,4 +485,7 @@ def pipeline_case(rng, jitter=None, cycles=None):
     jn, jd = jitter if jitter is not None else rng.choice([(0, 1), (1, 2), (5, 1), (20, 1), (50, 1), (75, 1), (799, 8)])
     d = rng.choice(["none", "regular", "regular", "random", "random"])
     c = cycles if cycles is not None else rng.choice([1, 2, 10, 100, 400])
-    return "pipeline %s %d %d %s %d" % (hx(r), jn, jd, hx(d), c)
+    mode = rng.choice(["constant", "constant", "staged"])
+    if mode == "staged" and r.split("/")[1] in ("m",):       # --iterationFrequency takes a duration, not a bare unit
+        mode = "constant"
+    return "pipeline %s %d %d %s %d %s" % (hx(r), jn, jd, hx(d), c, mode)
